@@ -2,7 +2,7 @@
 """Fold the output lines of tools/seedcheck.sh (file arg) into seeded/<dir>/meta.json ('verified' block)."""
 import json, re, subprocess, sys, os
 head = subprocess.run(["git","-C","/repo","rev-parse","--short","HEAD"],capture_output=True,text=True).stdout.strip()
-for line in open(sys.argv[1]):
+for line in open(sys.argv[1], errors="replace"):
     m = re.match(r"(\S+): suite\[(.*?)\] demo_patched=(\d+) demo_clean=(\d+) check_(\w+) rc=(\d+)\s*(.*)", line)
     if not m: continue
     d, suite, dp, dc, tier, rc, mech = m.groups()
